@@ -493,6 +493,20 @@ func (w *world) closeViaContext(m api.Module, spin api.Function, o Op) string {
 	if !m.IsClosed() {
 		return "other:instance-open-after-context-done-during-call"
 	}
+	// The close is performed by the watcher goroutine of the call: it marks the instance closed (which ends the call)
+	// and unregisters it afterwards.  A sequential history continues only when that goroutine is through - the window
+	// in between is the non-atomic close of findings F10/F10b, which the concurrent stage decides.
+	if name := m.Name(); name != "" {
+		for i := 0; i < 4000; i++ {
+			if cur := w.rt.Module(name); cur == nil || unwrap(cur) != unwrap(m) {
+				break
+			}
+			if i == 3999 {
+				return "other:instance-still-registered-2s-after-context-done-close"
+			}
+			time.Sleep(500 * time.Microsecond)
+		}
+	}
 	return "ok"
 }
 
@@ -539,6 +553,15 @@ type seqCase struct {
 	Ops    []Op   `json:"ops"`
 }
 
+// exitCode draws an exit code: mostly small, a fifth of the time a boundary of the 32-bit range (what the closed word
+// of a module / of the runtime stores next to its flag bits: "closed with this code" must differ from "open" for each).
+func exitCode(r *rand.Rand, small int) uint32 {
+	if r.Intn(5) == 0 {
+		return []uint32{0, 1, 255, 256, 0x7fffffff, 0x80000000, 0xefffffff, 0xfffffffe, 0xffffffff}[r.Intn(9)]
+	}
+	return uint32(r.Intn(small))
+}
+
 func genSeq(r *rand.Rand, n int) []Op {
 	var ops []Op
 	nextH := 1
@@ -567,7 +590,7 @@ func genSeq(r *rand.Rand, n int) []Op {
 		case x < 52:
 			ops = append(ops, Op{Kind: "look", Name: r.Intn(4)})
 		case x < 76:
-			op := Op{Kind: "close", H: -1 - r.Intn(1000), Code: uint32(r.Intn(4))} // H<0: chosen among live handles at run time
+			op := Op{Kind: "close", H: -1 - r.Intn(1000), Code: exitCode(r, 4)} // H<0: chosen among live handles at run time
 			switch r.Intn(6) {
 			case 0:
 				op.Via, op.Code = "deadline", sys.ExitCodeDeadlineExceeded
@@ -582,7 +605,7 @@ func genSeq(r *rand.Rand, n int) []Op {
 		case x < 96:
 			ops = append(ops, Op{Kind: "isclosed", H: -1 - r.Intn(1000)})
 		default:
-			ops = append(ops, Op{Kind: "rtclose", Code: uint32(r.Intn(3))})
+			ops = append(ops, Op{Kind: "rtclose", Code: exitCode(r, 3)})
 		}
 	}
 	return ops
@@ -620,7 +643,7 @@ func genSeqScale(r *rand.Rand, peak int) []Op {
 	for len(open) > 0 {
 		x := open[0]
 		open = open[1:]
-		ops = append(ops, Op{Kind: "close", H: x, Code: uint32(r.Intn(3))})
+		ops = append(ops, Op{Kind: "close", H: x, Code: exitCode(r, 3)})
 		if n := nameOf[x]; n != 0 {
 			ops = append(ops, Op{Kind: "look", Name: n})
 			freed = append(freed, n)
@@ -914,7 +937,7 @@ func genProg(r *rand.Rand, n int, nextH *int, rtCloseProb int, hot bool) []progO
 				p = append(p, progOp{op: Op{Kind: "inst", H: *nextH, Name: 1, Pre: "none"}})
 				*nextH++
 			case x < 85:
-				p = append(p, progOp{op: Op{Kind: "close", Code: uint32(r.Intn(4))}, pick: r.Intn(1 << 20)})
+				p = append(p, progOp{op: Op{Kind: "close", Code: exitCode(r, 4)}, pick: r.Intn(1 << 20)})
 			default:
 				p = append(p, progOp{op: Op{Kind: "look", Name: 1}})
 			}
@@ -939,14 +962,14 @@ func genProg(r *rand.Rand, n int, nextH *int, rtCloseProb int, hot bool) []progO
 		case x < 58:
 			p = append(p, progOp{op: Op{Kind: "look", Name: 1 + r.Intn(3)}})
 		case x < 86:
-			p = append(p, progOp{op: Op{Kind: "close", Code: uint32(r.Intn(4))}, pick: r.Intn(1 << 20)})
+			p = append(p, progOp{op: Op{Kind: "close", Code: exitCode(r, 4)}, pick: r.Intn(1 << 20)})
 		case x < 91:
 			p = append(p, progOp{op: Op{Kind: "comp"}})
 		case x < 96:
 			p = append(p, progOp{op: Op{Kind: "hcomp", Funcs: r.Intn(2) == 0}})
 		default:
 			if r.Intn(100) < rtCloseProb {
-				p = append(p, progOp{op: Op{Kind: "rtclose", Code: uint32(r.Intn(3))}})
+				p = append(p, progOp{op: Op{Kind: "rtclose", Code: exitCode(r, 3)}})
 			}
 		}
 	}
@@ -1400,6 +1423,16 @@ func main() {
 		engine := []string{"interpreter", "compiler"}[i%2]
 		n := 5 + r.Intn(36)
 		runSeq(engine, genSeq(r, n), cfg, orc)
+	}
+	// exit-code grid: the runtime / a module closed with every boundary code, then asked for everything again
+	for _, code := range []uint32{0, 1, 255, 256, 0x7fffffff, 0x80000000, 0xefffffff, 0xfffffffe, 0xffffffff} {
+		for _, engine := range []string{"interpreter", "compiler"} {
+			runSeq(engine, []Op{{Kind: "inst", H: 1, Name: 1, Pre: "none"}, {Kind: "inst", H: 2, Name: 0, Pre: "bin"}, {Kind: "inst", H: 3, Name: 2, Pre: "host"},
+				{Kind: "rtclose", Code: code}, {Kind: "isclosed", H: 1}, {Kind: "isclosed", H: 3}, {Kind: "comp"}, {Kind: "hcomp", Funcs: true}, {Kind: "hcomp"},
+				{Kind: "inst", H: 4, Name: 3, Pre: "none"}, {Kind: "inst", H: 5, Name: 3, Pre: "host"}, {Kind: "look", Name: 1}, {Kind: "look", Name: 2}}, cfg, orc)
+			runSeq(engine, []Op{{Kind: "inst", H: 1, Name: 1, Pre: "none"}, {Kind: "close", H: 1, Code: code}, {Kind: "isclosed", H: 1}, {Kind: "look", Name: 1},
+				{Kind: "inst", H: 2, Name: 1, Pre: "bin"}, {Kind: "close", H: 1, Code: 5}, {Kind: "look", Name: 1}, {Kind: "isclosed", H: 2}}, cfg, orc)
+		}
 	}
 	peaks := []int{130, 210, 405}
 	if hx.Thorough() {
